@@ -166,18 +166,43 @@ Qed.
 Lemma prealloc_le pc n : prealloc pc n <= n.
 Proof. destruct pc; cbn; lia. Qed.
 
-Theorem decode_validated pc b m : validate_strlist b = Ok m ->
-  exists sl mm, strlist_decode pc b = (Ok sl, mm) /\ mm <= 20 * N.of_nat (length b) + 12.
+Lemma prealloc_cost_le ru esz n : prealloc_cost ru esz n <= esz * n.
+Proof. unfold prealloc_cost. destruct ru; [destruct (reuse_cap0 <? n)|]; lia. Qed.
+
+Theorem decode_validated_g ru pc b m : validate_strlist b = Ok m ->
+  exists sl mm, strlist_decode_g ru pc b = (Ok sl, mm) /\ mm <= 20 * N.of_nat (length b) + 4108.
 Proof.
-  unfold validate_strlist, validate_strlist_gen, strlist_decode. cbn [andb].
+  unfold validate_strlist, validate_strlist_gen, strlist_decode_g. cbn [andb]. cbv zeta.
   destruct (length b <? 4)%nat eqn:E; [discriminate|]. apply Nat.ltb_ge in E.
   unfold be_u32. rewrite be_uint_len_ok by lia. intros H.
   pose proof (validate_loop_range _ _ _ _ _ _ E H) as Hm.
   destruct (decode_follows_validate b (unbe (firstn 4 b)) (S (length b)) 0 4 [] strlist_cap0
-              (4 + sz_string * prealloc pc (unbe (firstn 4 b))) m ltac:(cbv; reflexivity) ltac:(lia) E H)
+              (4 + ctor_cost ru sz_string + prealloc_cost ru sz_string (prealloc pc (unbe (firstn 4 b))))
+              m ltac:(cbv; reflexivity) ltac:(lia) E H)
     as (sl' & mm' & cap' & Hd & Hcap & Hcap2 & Hb).
   exists sl', mm'. split; [exact Hd|].
-  pose proof (prealloc_le pc (unbe (firstn 4 b))). unfold sz_string, strlist_cap0 in *. lia.
+  pose proof (prealloc_le pc (unbe (firstn 4 b))).
+  pose proof (prealloc_cost_le ru sz_string (prealloc pc (unbe (firstn 4 b)))).
+  assert (ctor_cost ru sz_string <= 4096) by (unfold ctor_cost, sz_string, reuse_cap0; destruct ru; lia).
+  unfold sz_string, strlist_cap0 in *. lia.
+Qed.
+
+Theorem decode_validated pc b m : validate_strlist b = Ok m ->
+  exists sl mm, strlist_decode pc b = (Ok sl, mm) /\ mm <= 20 * N.of_nat (length b) + 12.
+Proof.
+  intros H. destruct (decode_validated_g false pc b m H) as (sl & mm & Hd & _).
+  exists sl, mm. split; [exact Hd|].
+  revert Hd. unfold strlist_decode_g, validate_strlist, validate_strlist_gen in *. cbn [andb] in H. cbv zeta.
+  destruct (length b <? 4)%nat eqn:E; [discriminate|]. apply Nat.ltb_ge in E.
+  unfold be_u32 in *. rewrite be_uint_len_ok in * by lia. intros Hd.
+  pose proof (validate_loop_range _ _ _ _ _ _ E H) as Hm.
+  destruct (decode_follows_validate b (unbe (firstn 4 b)) (S (length b)) 0 4 [] strlist_cap0
+              (4 + ctor_cost false sz_string + prealloc_cost false sz_string (prealloc pc (unbe (firstn 4 b))))
+              m ltac:(cbv; reflexivity) ltac:(lia) E H)
+    as (sl' & mm' & cap' & Hd' & Hcap & Hcap2 & Hb).
+  rewrite Hd' in Hd. inversion Hd; subst.
+  pose proof (prealloc_le pc (unbe (firstn 4 b))).
+  unfold prealloc_cost, ctor_cost, sz_string, strlist_cap0 in *. lia.
 Qed.
 
 (** ** StrListDecoder.Read *)
@@ -218,16 +243,17 @@ Proof.
     + sfail.
 Qed.
 
-Lemma spec_strlist_read F cp cap : cap_ok cap ->
+Lemma spec_strlist_read_g F ru cp cap : cap_ok cap ->
   spec F 16 (fun x => 2 * Z.of_N (snd x) - 2 * Z.of_N cap - 64)%Z
        (16 * Z.of_N cp + 524304)%Z
-       (strlist_read (Capped cp) F cap)
+       (strlist_read_g ru (Capped cp) F cap)
        (fun x n => (4 <= n)%nat /\ cap_ok (snd x)).
 Proof.
-  intros Hcap. unfold strlist_read.
+  intros Hcap. unfold strlist_read_g.
   eapply (spec_bind _ _ _ 0%Z); [apply spec_rd_exact; lia|lia|].
   intros cb n1 (-> & Hl & Hw). unfold zc.
   destruct (be_u32_ok cb Hl Hw) as (count & -> & Hcb). cbn [lift bind].
+  pose proof (prealloc_cost_le ru sz_string (prealloc (Capped cp) count)) as Hpc.
   eapply (spec_bind _ _ _ 0%Z); [apply spec_alloc|lia|]. intros _ n0 ->.
   eapply spec_conseq.
   - apply (spec_for_n_pot F 16 16 K_cell (fun st => 2 * Z.of_N (snd st))%Z 262144%Z
@@ -236,10 +262,17 @@ Proof.
       eapply spec_conseq; [apply spec_strlist_cell; auto|intros; split; [lia|assumption]|].
       unfold cap_ok in HP. lia.
     + exact Hcap.
-  - intros [sl cap'] n HP. cbn [snd] in *. unfold sz_string. cbn [prealloc].
+  - intros [sl cap'] n HP. cbn [snd] in *. unfold sz_string in *. cbn [prealloc] in *.
     split; [lia|]. split; [lia|auto].
-  - unfold K_cell, sz_string, cap_ok in *. cbn [prealloc snd]. lia.
+  - unfold K_cell, sz_string, cap_ok in *. cbn [prealloc snd] in *. lia.
 Qed.
+
+Lemma spec_strlist_read F cp cap : cap_ok cap ->
+  spec F 16 (fun x => 2 * Z.of_N (snd x) - 2 * Z.of_N cap - 64)%Z
+       (16 * Z.of_N cp + 524304)%Z
+       (strlist_read (Capped cp) F cap)
+       (fun x n => (4 <= n)%nat /\ cap_ok (snd x)).
+Proof. exact (spec_strlist_read_g F false cp cap). Qed.
 
 Definition K_strlist (cp : N) : Z := (16 * Z.of_N cp + 524308)%Z.
 
@@ -254,14 +287,26 @@ Proof.
   apply spec_ret; [lia|lia].
 Qed.
 
+Lemma spec_strlist_read1_reuse F cp :
+  spec F 16 (fun _ => 266180)%Z (K_strlist cp + 4096)%Z (strlist_read1_reuse (Capped cp) F)
+       (fun _ n => (4 <= n)%nat).
+Proof.
+  unfold strlist_read1_reuse, K_strlist, ctor_cost, sz_string, reuse_cap0.
+  eapply (spec_bind _ _ _ 0%Z); [apply spec_alloc|lia|]. intros _ n0 ->.
+  eapply (spec_bind _ _ _ (16 * Z.of_N cp + 524304)%Z);
+    [apply (spec_strlist_read_g F true cp strlist_cap0); unfold cap_ok, strlist_cap0; lia|lia|].
+  intros [sl cap'] n (Hn & Hc). cbn [snd] in *. unfold cap_ok, strlist_cap0 in *.
+  apply spec_ret; [lia|lia].
+Qed.
+
 (** ** UintListDecoder.Read / FloatListDecoder.Read *)
-Lemma spec_fixed_list F cp (st0 st1 : site) (w : nat) (f : bytes -> res N) (bound : N) (esz : N) :
+Lemma spec_fixed_list F ru cp (st0 st1 : site) (w : nat) (f : bytes -> res N) (bound : N) (esz : N) :
   (forall b, length b = w -> wf_bytes b -> exists v, f b = Ok v /\ v < bound) ->
   (1 <= w)%nat -> (2 * Z.of_N esz <= 16 * Z.of_nat w)%Z ->
   spec F 16 (fun _ => -64)%Z (Z.of_N esz * Z.of_N cp)%Z
        (nb <- rd_exact st0 4 ;;
         n <- lift (be_u32 nb) ;;
-        _ <- alloc (esz * prealloc (Capped cp) n) ;;
+        _ <- alloc (prealloc_cost ru esz (prealloc (Capped cp) n)) ;;
         for_n F (fun _ sl =>
                    ub <- rd_exact st1 w ;;
                    u <- lift (f ub) ;;
@@ -273,7 +318,8 @@ Proof.
   eapply (spec_bind _ _ _ 0%Z); [apply spec_rd_exact; lia|nia|].
   intros nb n1 (-> & Hl & Hw). unfold zc.
   destruct (be_u32_ok nb Hl Hw) as (n & -> & Hnb). cbn [lift bind].
-  eapply (spec_bind _ _ _ 0%Z); [apply spec_alloc|nia|]. intros _ n0 ->.
+  pose proof (prealloc_cost_le ru esz (prealloc (Capped cp) n)) as Hpc. cbn [prealloc] in Hpc.
+  eapply (spec_bind _ _ _ 0%Z); [apply spec_alloc|cbn [prealloc]; nia|]. intros _ n0 ->.
   eapply spec_conseq.
   - apply (spec_for_n F 16 (Z.of_N esz) 0%Z (fun _ _ => True)); try lia.
     + intros i sl Hi _.
@@ -286,18 +332,34 @@ Proof.
   - cbn [prealloc]. nia.
 Qed.
 
+Lemma spec_uintlist_read_g F ru cp :
+  spec F 16 (fun _ => -64)%Z (4 * Z.of_N cp)%Z (uintlist_read_g ru (Capped cp) F) (fun _ n => (4 <= n)%nat).
+Proof.
+  unfold uintlist_read_g.
+  apply (spec_fixed_list F ru cp S_ulist_u32 S_ulist_u32 4 be_u32 4294967296 4); [apply be_u32_ok|lia|lia].
+Qed.
+
 Lemma spec_uintlist_read F cp :
   spec F 16 (fun _ => -64)%Z (4 * Z.of_N cp)%Z (uintlist_read (Capped cp) F) (fun _ n => (4 <= n)%nat).
+Proof. exact (spec_uintlist_read_g F false cp). Qed.
+
+Lemma spec_floatlist_read_g F ru cp :
+  spec F 16 (fun _ => -64)%Z (8 * Z.of_N cp)%Z (floatlist_read_g ru (Capped cp) F) (fun _ n => (4 <= n)%nat).
 Proof.
-  unfold uintlist_read.
-  apply (spec_fixed_list F cp S_ulist_u32 S_ulist_u32 4 be_u32 4294967296 4); [apply be_u32_ok|lia|lia].
+  unfold floatlist_read_g.
+  apply (spec_fixed_list F ru cp S_flist_u32 S_flist_f64 8 be_u64 18446744073709551616 8); [apply be_u64_ok|lia|lia].
 Qed.
 
 Lemma spec_floatlist_read F cp :
   spec F 16 (fun _ => -64)%Z (8 * Z.of_N cp)%Z (floatlist_read (Capped cp) F) (fun _ n => (4 <= n)%nat).
+Proof. exact (spec_floatlist_read_g F false cp). Qed.
+
+Lemma spec_list_entry {A} F (p : prog A) (x : N) (K : Z) : (0 <= K)%Z ->
+  spec F 16 (fun _ => -64)%Z K p (fun _ n => (4 <= n)%nat) ->
+  spec F 16 (fun _ => Z.of_N x - 64)%Z (K + Z.of_N x)%Z (_ <- alloc x ;; p)%prog (fun _ n => (4 <= n)%nat).
 Proof.
-  unfold floatlist_read.
-  apply (spec_fixed_list F cp S_flist_u32 S_flist_f64 8 be_u64 18446744073709551616 8); [apply be_u64_ok|lia|lia].
+  intros HK Hp. eapply (spec_bind _ _ _ 0%Z); [apply spec_alloc|lia|]. intros _ n0 ->.
+  eapply spec_conseq; [exact Hp| |lia]. intros a n Hn. split; [lia|exact Hn].
 Qed.
 
 (** ** StrListDecoder.ReadBytes: the record is kept whole in d.buf, whose doubling is paid by
@@ -339,10 +401,10 @@ Proof.
   - sfail.
 Qed.
 
-Lemma spec_strlist_read_bytes F :
-  spec F 16 (fun _ => 262160)%Z 262200%Z (strlist_read_bytes F) (fun _ n => (4 <= n)%nat).
+Lemma spec_strlist_read_bytes_g F ru :
+  spec F 16 (fun _ => 262160)%Z 262200%Z (strlist_read_bytes_g ru F) (fun _ n => (4 <= n)%nat).
 Proof.
-  unfold strlist_read_bytes.
+  unfold strlist_read_bytes_g.
   eapply (spec_bind _ _ _ 0%Z); [apply spec_rdf|lia|].
   intros [hb e] n1 (Hn & Hw & Hx). cbn [fst snd] in *.
   destruct Hx as [[-> Hl]|[[-> [-> Hn0]]|[-> Hl]]]; [|sfail|sfail].
@@ -356,5 +418,9 @@ Proof.
   - unfold rb_phi. cbn [fst snd]. lia.
   - intros [acc cap] n (Ha & Hc & Hcap). unfold rb_phi in *. cbn [fst snd] in *.
     eapply (spec_bind _ _ _ 0%Z); [apply spec_alloc|lia|]. intros _ n0 ->.
-    apply spec_ret; [lia|lia].
+    apply spec_ret; [destruct ru; lia|lia].
 Qed.
+
+Lemma spec_strlist_read_bytes F :
+  spec F 16 (fun _ => 262160)%Z 262200%Z (strlist_read_bytes F) (fun _ n => (4 <= n)%nat).
+Proof. exact (spec_strlist_read_bytes_g F false). Qed.
